@@ -15,7 +15,9 @@ CONSTANTS
   MaxChanges = 5
   MaxUpdates = 2
   MaxCalls = 3
+  NPages = 2
   ModernUnsub = TRUE
+  ForeignUnsub = TRUE
   Stepwise = TRUE
   Gates = TRUE
   GateNames = {"inv", "usr", "put", "unsub"}
